@@ -329,7 +329,9 @@ def case_registry(ctx, job, idx, rng, st):
                 host = rng.choice(inertial_hosts)
                 orient = {"orbit-qsw": "QSW", "orbit-tnw": "TNW"}[kind]
                 for coord, d in rng.sample(states, 3):
-                    ref_state = Orbit(coord, d, "cartesian", "EME2000", Kepler()).copy(frame=host)
+                    # (a plain state vector, as in the nested case below: an Orbit re-expressed in a frame that is not inertial would
+                    # be propagated there by Kepler's laws, which is nobody's intention)
+                    ref_state = StateVector(coord, d, "cartesian", "EME2000").copy(frame=host)
                     # (not the state the host frame itself is attached to: it sits at the host's origin, where local axes are undefined)
                     if float(np.linalg.norm(probe.arr(ref_state)[:3])) > 1e3:
                         break
